@@ -275,7 +275,8 @@ theorem unpairnComb_spec : ∀ (n : Nat) (v : CVal) (rs : List SVal), unpairn (n
   | _, .right .., _, h => by simp [strip, unpairn] at h
   | _, .list .., _, h => by simp [strip, unpairn] at h
 
-/-- UPDATE n: wherever the reference is defined the helper agrees (for `UPDATE 0` pytezos additionally wants a pair element) -/
+/-- `update_comb`: wherever the reference is defined the helper agrees (`update_comb(0, e)` rebuilds `e` through `from_comb`, which
+wants ≥ 2 leaves, hence the side condition for n = 0 — the instruction UPDATE n no longer calls the helper with 0) -/
 theorem updateComb_spec (v e : CVal) (n : Nat) (r : SVal) (hv : v.isPair = true) (h0 : n = 0 → e.isPair = true)
     (h : updaten n (strip e) (strip v) = some r) : (updateComb false v n e).map strip = some r := by
   obtain ⟨a, l, r0, rfl⟩ : ∃ a l r0, v = .pair a l r0 := by
@@ -386,8 +387,8 @@ theorem map_eraseIdx {α β : Type} (f : α → β) : ∀ (xs : List α) (n : Na
   | _ :: xs, 0 => rfl
   | x :: xs, n + 1 => by simp [List.eraseIdx, map_eraseIdx f xs n]
 
-theorem step_erase (i : Instr) (st : List CVal) :
-    (step false false i st).map (List.map erase) = step false false i (st.map erase) := by
+theorem step_erase (zg zu : Bool) (i : Instr) (st : List CVal) :
+    (step false false zg zu i st).map (List.map erase) = step false false zg zu i (st.map erase) := by
   cases i with
   | getN n =>
     cases st with
@@ -395,8 +396,10 @@ theorem step_erase (i : Instr) (st : List CVal) :
     | cons v st =>
       simp only [step, List.map_cons, isPair_erase]
       split
-      · rw [← accessComb_erase]; cases accessComb false v n <;> simp
       · rfl
+      · split
+        · rw [← accessComb_erase]; cases accessComb false v n <;> simp
+        · rfl
   | updateN n =>
     match st with
     | [] => rfl
@@ -404,8 +407,10 @@ theorem step_erase (i : Instr) (st : List CVal) :
     | e :: v :: st =>
       simp only [step, List.map_cons, isPair_erase]
       split
-      · rw [← updateComb_erase]; cases updateComb false v n e <;> simp
       · rfl
+      · split
+        · rw [← updateComb_erase]; cases updateComb false v n e <;> simp
+        · rfl
   | pairN n =>
     simp only [step, List.length_map]
     split
@@ -460,15 +465,15 @@ theorem step_erase (i : Instr) (st : List CVal) :
       simp only [step, List.map_cons, List.length_map]
       split <;> simp [List.map_take, List.map_drop]
 
-theorem exec_erase : ∀ (prog : List Instr) (st : List CVal),
-    (exec false false prog st).map (List.map erase) = exec false false prog (st.map erase)
+theorem exec_erase (zg zu : Bool) : ∀ (prog : List Instr) (st : List CVal),
+    (exec false false zg zu prog st).map (List.map erase) = exec false false zg zu prog (st.map erase)
   | [], st => rfl
   | i :: is, st => by
     simp only [exec]
     rw [← step_erase]
-    cases h : step false false i st with
+    cases h : step false false zg zu i st with
     | none => rfl
-    | some st' => simp [exec_erase is st']
+    | some st' => simp [exec_erase zg zu is st']
 
 /-- results, modulo annotations, are a function of the annotation-free inputs -/
 theorem blind_of_erase {α : Type} (f : α → Option (List CVal)) (g : α → α)
@@ -627,28 +632,66 @@ theorem isPair_of_not {v : CVal} (h : ¬ isPair (strip v) = false) : v.isPair = 
   · exact absurd (by rw [isPair_strip]; exact hp) h
   · rfl
 
-theorem step_getN_spec (n : Nat) (v : CVal) (st : List CVal) (x : SVal) (hv : v.isPair = true)
+/-- `GET 0` in the repaired shape: the stack is returned as it is, whatever the type of its top (annotations included) -/
+theorem step_getN_zero (ci cu zu : Bool) (v : CVal) (st : List CVal) :
+    step ci cu true zu (.getN 0) (v :: st) = some (v :: st) := by
+  simp [step]
+
+/-- `UPDATE 0` in the repaired shape: the new element replaces the value below it, whatever the two types -/
+theorem step_updateN_zero (ci cu zg : Bool) (e v : CVal) (st : List CVal) :
+    step ci cu zg true (.updateN 0) (e :: v :: st) = some (e :: st) := by
+  simp [step]
+
+theorem step_getN_succ (ci cu zg zu : Bool) (m : Nat) (v : CVal) (st : List CVal) :
+    step ci cu zg zu (.getN (m + 1)) (v :: st)
+      = if v.isPair then (accessComb ci v (m + 1)).map (· :: st) else none := by
+  simp [step]
+
+theorem step_updateN_succ (ci cu zg zu : Bool) (m : Nat) (e v : CVal) (st : List CVal) :
+    step ci cu zg zu (.updateN (m + 1)) (e :: v :: st)
+      = if v.isPair then (updateComb ci v (m + 1) e).map (· :: st) else none := by
+  simp [step]
+
+/-- GET n on a stack, repaired shape: the reference `GET n` for EVERY value and EVERY n — same result, same failures -/
+theorem step_getN_eq (zu : Bool) (n : Nat) (v : CVal) (st : List CVal) :
+    (step false false true zu (.getN n) (v :: st)).map (List.map strip)
+      = (getn n (strip v)).map (· :: st.map strip) := by
+  cases n with
+  | zero => simp [step_getN_zero, getn]
+  | succ m =>
+    rw [step_getN_succ]
+    cases hv : v.isPair
+    · have h' : isPair (strip v) = false := by rw [isPair_strip]; exact hv
+      simp [getn_succ_not_pair h']
+    · have := accessComb_getn v (m + 1) hv
+      rw [← this]
+      cases accessComb false v (m + 1) <;> simp
+
+theorem step_getN_spec (zu : Bool) (n : Nat) (v : CVal) (st : List CVal) (x : SVal)
     (h : getn n (strip v) = some x) :
-    (step false false (.getN n) (v :: st)).map (List.map strip) = some (x :: st.map strip) := by
-  have := accessComb_getn v n hv
-  rw [h] at this
-  simp only [step, hv, if_true]
-  cases ha : accessComb false v n with
-  | none => rw [ha] at this; cases this
-  | some y => rw [ha] at this; simp at this; simp [this]
+    (step false false true zu (.getN n) (v :: st)).map (List.map strip) = some (x :: st.map strip) := by
+  rw [step_getN_eq, h]; rfl
 
-theorem step_updateN_spec (n : Nat) (e v : CVal) (st : List CVal) (x : SVal) (hv : v.isPair = true)
-    (h0 : n = 0 → e.isPair = true) (h : updaten n (strip e) (strip v) = some x) :
-    (step false false (.updateN n) (e :: v :: st)).map (List.map strip) = some (x :: st.map strip) := by
-  have := updateComb_spec v e n x hv h0 h
-  simp only [step, hv, if_true]
-  cases ha : updateComb false v n e with
-  | none => rw [ha] at this; cases this
-  | some y => rw [ha] at this; simp at this; simp [this]
+theorem step_updateN_spec (zg : Bool) (n : Nat) (e v : CVal) (st : List CVal) (x : SVal)
+    (h : updaten n (strip e) (strip v) = some x) :
+    (step false false zg true (.updateN n) (e :: v :: st)).map (List.map strip) = some (x :: st.map strip) := by
+  cases n with
+  | zero =>
+    simp only [updaten, Option.some.injEq] at h
+    subst h
+    simp [step_updateN_zero]
+  | succ m =>
+    have hv : v.isPair = true := isPair_of_not (fun hp => by rw [updaten_succ_not_pair hp] at h; cases h)
+    have := updateComb_spec v e (m + 1) x hv (fun h0 => by cases h0) h
+    rw [step_updateN_succ]
+    simp only [hv, if_true]
+    cases ha : updateComb false v (m + 1) e with
+    | none => rw [ha] at this; cases this
+    | some y => rw [ha] at this; simp at this; simp [this]
 
-theorem step_pairN_spec (n : Nat) (st : List CVal) (x : SVal) (hn : 2 ≤ n ∧ n ≤ st.length)
+theorem step_pairN_spec (zg zu : Bool) (n : Nat) (st : List CVal) (x : SVal) (hn : 2 ≤ n ∧ n ≤ st.length)
     (h : pairn ((st.map strip).take n) = some x) :
-    (step false false (.pairN n) st).map (List.map strip) = some (x :: (st.map strip).drop n) := by
+    (step false false zg zu (.pairN n) st).map (List.map strip) = some (x :: (st.map strip).drop n) := by
   have := fromComb_strip (st.take n)
   rw [List.map_take, h] at this
   have hn' : n ≥ 2 ∧ st.length ≥ n := hn
@@ -660,9 +703,9 @@ theorem step_pairN_spec (n : Nat) (st : List CVal) (x : SVal) (hn : 2 ≤ n ∧ 
 theorem unpairn_lt_two (sv : SVal) : unpairn 0 sv = none ∧ unpairn 1 sv = none := by
   constructor <;> (unfold unpairn; rfl)
 
-theorem step_unpairN_spec (n : Nat) (v : CVal) (st : List CVal) (rs : List SVal)
+theorem step_unpairN_spec (zg zu : Bool) (n : Nat) (v : CVal) (st : List CVal) (rs : List SVal)
     (h : unpairn n (strip v) = some rs) :
-    (step false false (.unpairN n) (v :: st)).map (List.map strip) = some (rs ++ st.map strip) := by
+    (step false false zg zu (.unpairN n) (v :: st)).map (List.map strip) = some (rs ++ st.map strip) := by
   match n, h with
   | 0, h => rw [(unpairn_lt_two _).1] at h; cases h
   | 1, h => rw [(unpairn_lt_two _).2] at h; cases h
